@@ -50,7 +50,9 @@ TRUSTED_BASE = [
     "laws of mean/deviation/percentiles, integer background subtraction, "
     "adjugate/det inverse of the spill matrix, the marching-squares case "
     "table (orientation and edge consistency for all 2x2 and 2x3/3x2 "
-    "neighbourhoods of every image)",
+    "neighbourhoods of every image) and, lifted to whole images, that the "
+    "rounded endpoints of the emitted segments are exactly the boundary "
+    "pixels of the mask (both inclusions)",
     "ORACLE RUNS ONLY (not proved): the global statement 'refilling the "
     "extracted contour reproduces the mask' (digital topology of the "
     "assembled contour; the model of _assemble_contours/get_contour is "
